@@ -98,6 +98,43 @@ LAYOUTS = ['c', 'c', 'f', 'transposed', 'view', 'negstride', 'readonly', 'readon
 
 
 def num(r, x):
+    """a number for a DS / FD / FL valued argument: as given, or one whose shortest repr has 17-19 characters (1/3, 0.1+0.2,
+    1000/3, 3e-7-like, large magnitude)"""
+    k = r.random()
+    if k < 0.45:
+        return float(x)
+    if k < 0.6:
+        return float(x) + 1.0 / 3.0
+    if k < 0.7:
+        return float(x) + (0.1 + 0.2)
+    if k < 0.8:
+        return float(x) * (1.0 + 2.0 ** -30) + 1e-7 * 3
+    if k < 0.9:
+        return float(x) + 1000.0 / 3.0
+    return float(x) * 1.0e6 + 1.0 / 3.0
+
+
+def awkward_geometry(series, r):
+    """rewrite the geometry of a single-frame series with non-terminating decimals, stored as the valid 16-character decimal
+    strings a file would hold (values the library has to re-format when it derives positions / spacings from them)"""
+    from pydicom.valuerep import DS
+    t = r.choice([1.0 / 3.0, 1.0 / 7.0, 0.1 + 0.2])
+    ori = r.choice([(0.6, 0.8, 0.0, -0.8, 0.6, 0.0), (1.0, 0.0, 0.0, 0.0, 0.0, -1.0)])
+    o = np.array(ori, dtype=float)
+    normal = np.cross(o[:3], o[3:])
+    for i, d in enumerate(series):
+        pos = np.array([t, -t, 0.0]) + i * t * normal
+        d.ImagePositionPatient = [DS(float(v), auto_format=True) for v in pos]
+        d.PixelSpacing = [DS(t, auto_format=True), DS(t / 2, auto_format=True)]
+        d.ImageOrientationPatient = [DS(float(v), auto_format=True) for v in ori]
+        d.SliceThickness = DS(t, auto_format=True)
+    return series
+
+
+LAYOUTS = ['c', 'c', 'f', 'transposed', 'view', 'negstride', 'readonly', 'readonly', 'readonly_view']
+
+
+def num(r, x):
     """a number for a DS / FD / FL valued argument: as given, or perturbed so that its repr has 17-18 significant digits"""
     k = r.random()
     if k < 0.5:
@@ -237,6 +274,7 @@ def subject_pm(r, nr):
     from pydicom.sr.codedict import codes
     kind = r.choice(['series', 'enhanced', 'slide'])
     rows, cols, n = r.randint(2, 6), r.randint(2, 6), r.randint(1, 3)
+    explicit_positions = None
     if kind == 'series':
         src = sources.ct_series(n, rows, cols)
         if r.random() < 0.3:
@@ -247,6 +285,11 @@ def subject_pm(r, nr):
         ds, _ = sources.slide_image(rows * 2, cols, rows, cols)
         src = [ds]
         n = int(ds.NumberOfFrames)
+        if r.random() < 0.5:
+            # plane positions that differ from the source's (the total pixel matrix origin is then recomputed)
+            explicit_positions = [hd.PlanePositionSequence(
+                hd.CoordinateSystemNames.SLIDE, image_position=(num(r, 1.0 + k), num(r, 2.0), 0.0),
+                pixel_matrix_position=(1, 1 + rows * k)) for k in range(n)]
     dtype = r.choice(['uint8', 'uint16', 'float32', 'float64', 'uint16'])
     nmaps = r.choice([1, 1, 2])
     shape = (n, rows, cols) + ((nmaps,) if nmaps > 1 or r.random() < 0.5 else ())
@@ -272,12 +315,14 @@ def subject_pm(r, nr):
     kw = dict(_ids(r), **_equip())
     wc, ww = num(r, 100), num(r, 200)
 
-    def call(source_images, pixel_array, real_world_value_mappings):
+    more = {'plane_positions': explicit_positions} if explicit_positions is not None else {}
+
+    def call(source_images, pixel_array, real_world_value_mappings, **extra):
         return hd.pm.ParametricMap(source_images, pixel_array, contains_recognizable_visual_features=False,
                                    real_world_value_mappings=real_world_value_mappings, window_center=wc, window_width=ww,
-                                   **kw)
-    return {'name': 'pm.ParametricMap', 'variant': (kind, dtype, arr.ndim, how, nmaps),
-            'call': call, 'inputs': {'source_images': src, 'pixel_array': arr, 'real_world_value_mappings': rwvm}}
+                                   **extra, **kw)
+    return {'name': 'pm.ParametricMap', 'variant': (kind, dtype, arr.ndim, how, nmaps, explicit_positions is not None),
+            'call': call, 'inputs': {'source_images': src, 'pixel_array': arr, 'real_world_value_mappings': rwvm, **more}}
 
 
 # ------------------------------------------------------------------------------------------ secondary capture
